@@ -528,6 +528,7 @@ Proof.
   apply gp_strip_pts in E1.
   destruct x as [op'|]; [|inversion E; subst; split; [exact E1|intros ? []]].
   destruct (nd h1 op') as [n'|] eqn:En'; cbn [bind] in E; [|discriminate].
+  destruct (n_next n' =? n_prev n')%nat; [inversion E; subst; split; [exact E1|intros ? []]|].
   destruct (gp_collect (ring_fuel h) h1 op' (n_next n') [n_pt n']) as [l0|] eqn:Ec; cbn [bind] in E; [|discriminate].
   inversion E; subst. split; [exact E1|].
   rewrite <- E1. eapply gp_collect_in; [|exact Ec].
@@ -619,7 +620,7 @@ Theorem rect_clip_vertices r path out piece v s :
   | SC k => nth_error (rect_as_path r) k = Some v
   | SI i => exists a b, cseg_at path i a b /\ exists loc ip0 loc',
               GetIntersection (RPath r) b a loc ip0 = (true, loc', v) \/ GetIntersection (RPath r) a b loc ip0 = (true, loc', v)
-  | SX i => exists a b, cseg_at path i a b /\ exists loc ip0 loc', GetIntersection (RPath r) a b loc ip0 = (false, loc', v)
+  | SX _ => False
   end.
 Proof.
   intros Hr E Hp Hv. unfold rect_clip_t in E. destruct (rect_is_empty r) eqn:He; [inversion E; subst; destruct Hp|].
@@ -629,50 +630,35 @@ Proof.
   - destruct P as [A [B|B]]; (split; [exact A|]); [exact B|apply (t_get_location_false _ _ Hok), B].
   - destruct P as (a & b & Hs & loc & ip0 & l' & [G|G]); apply t_get_intersection_inv in G; destruct G as (l & G & _);
       exists a, b; (split; [exact Hs|]); exists (loc_idx loc), ip0, l; [left|right]; exact G.
-  - destruct P as (a & b & Hs & loc & ip0 & l' & G). apply t_get_intersection_inv in G. destruct G as (l & G & _).
-    exists a, b. split; [exact Hs|]. exists (loc_idx loc), ip0, l. exact G.
+  - exact P.
   - exact P.
 Qed.
 
-(* without a point tagged SX every output vertex is an input vertex in the closed rectangle, a corner, or an intersection
-   point GetIntersection vouched for *)
-Corollary rect_clip_vertices_no_stale r path out :
+(* the statement of the design: every output vertex is an input vertex in the closed rectangle, a corner, or an intersection
+   point GetIntersection vouched for (result true) *)
+Corollary rect_clip_vertices_untagged r path out :
   rect_i64 r -> rect_clip_t r path = Ok out ->
-  (forall piece v i, In piece out -> ~ In (v, SX i) piece) ->
   forall piece v, In piece (untag out) -> In v piece ->
     (In v path /\ in_rect r v) \/ In v (rect_as_path r)
     \/ exists a b loc ip0 loc', In a path /\ In b path /\ GetIntersection (RPath r) a b loc ip0 = (true, loc', v).
 Proof.
-  intros Hr E Hns piece v Hp Hv. unfold untag in Hp. apply in_map_iff in Hp. destruct Hp as (tp & <- & Htp).
+  intros Hr E piece v Hp Hv. unfold untag in Hp. apply in_map_iff in Hp. destruct Hp as (tp & <- & Htp).
   apply in_map_iff in Hv. destruct Hv as ([v' s] & Hv' & Hin). cbn [fst] in Hv'. subst v'.
   pose proof (rect_clip_vertices r path out tp v s Hr E Htp Hin) as P. destruct s as [i|i|i|k].
   - left. destruct P as [A B]. split; [eapply nth_error_In; exact A|exact B].
   - right; right. destruct P as (a & b & [Ha Hb] & loc & ip0 & l' & [G|G]).
     + exists b, a, loc, ip0, l'. split; [eapply nth_error_In; exact Hb|]. split; [eapply nth_error_In; exact Ha|exact G].
     + exists a, b, loc, ip0, l'. split; [eapply nth_error_In; exact Ha|]. split; [eapply nth_error_In; exact Hb|exact G].
-  - exfalso. eapply Hns; eassumption.
+  - destruct P.
   - right; left. eapply nth_error_In; exact P.
 Qed.
 
-(* the SX case is real: with the translated leaf functions the model -- and RectClip itself, which the check ties to it by
-   exact equality and replays -- emits the default-constructed Point64() = (0,0) for this triangle (a simple polygon that misses
-   the 1 x 1 rectangle; |coordinates| < 2^30) *)
+(* regression example: the input for which the code before the repair of the pass-through branch returned
+   [[(32769434,279593456); (0,0); (32769433,279593456)]] -- a triangle that misses the 1 x 1 rectangle -- now vanishes *)
 Definition stale_rect : rect := mkRect 32769433 279593455 32769434 279593456.
 Definition stale_path : list pt := [(109421516, 656086942); (-25760342, -7888347); (32769354, 279593454)].
-
-Theorem stale_refuted :
-  exists out piece i,
-    rect_is_empty stale_rect = false /\ rect_i64 stale_rect /\ rect_clip_t stale_rect stale_path = Ok out /\ In piece out
-    /\ In ((0, 0), SX i) piece /\ ~ within stale_rect 1 (0, 0)
-    /\ ~ In (0, 0) stale_path /\ ~ In (0, 0) (rect_as_path stale_rect).
-Proof.
-  eexists. eexists. exists 1%nat.
-  split; [reflexivity|]. split; [unfold rect_i64, i64_lowest, i64_max, stale_rect; cbn; lia|].
-  split; [vm_compute; reflexivity|]. split; [left; reflexivity|].
-  split; [first [left; reflexivity|right; left; reflexivity|right; right; left; reflexivity]|].
-  split; [unfold within, stale_rect; cbn; lia|].
-  split; intros H; cbn in H; repeat (destruct H as [H|H]; [discriminate H|]); exact H.
-Qed.
+Example stale_repaired : rect_clip_t stale_rect stale_path = Ok [].
+Proof. vm_compute. reflexivity. Qed.
 
 (* ====================================================================== the corner loops *)
 Lemma corner_loop_total r a b cw rs : a <> Inside -> b <> Inside -> exists rs', corner_loop r loop_fuel a b cw rs = Ok rs'.
@@ -725,7 +711,7 @@ Theorem rect_clip_partial r path out :
      | SC k => nth_error (rect_as_path r) k = Some v
      | SI i => exists a b, cseg_at path i a b /\ exists loc ip0 loc',
                  GetIntersection (RPath r) b a loc ip0 = (true, loc', v) \/ GetIntersection (RPath r) a b loc ip0 = (true, loc', v)
-     | SX i => exists a b, cseg_at path i a b /\ exists loc ip0 loc', GetIntersection (RPath r) a b loc ip0 = (false, loc', v)
+     | SX _ => False
      end)
   /\ (forall piece v s, In piece out -> In (v, s) piece -> match s with SV _ | SC _ => in_rect r v | _ => True end)
   /\ ((3 <= length path)%nat -> (forall v, In v path -> in_rect r v) -> untag out = [path])
